@@ -95,6 +95,27 @@ def ellipsis_soup(rng):
     return text + " " + " ".join(rng.choice(uses) for _ in range(rng.randrange(1, 4)))
 
 
+def import_soup(rng):
+    libs = ["(scheme base)", "(scheme base)", "(scheme write)", "(ruschm base)", "(no such)", "(scheme)"]
+    names = ["car", "cdr", "cons", "+", "list", "display", "map", "nope", "car", "x"]
+    def iset(d):
+        if d <= 0 or rng.random() < 0.3:
+            return rng.choice(libs)
+        k = rng.randrange(4)
+        inner = iset(d - 1)
+        ids = [rng.choice(names) for _ in range(rng.randrange(0, 4))]
+        if ids and rng.random() < 0.4:
+            ids.append(rng.choice(ids))                      # a repeated identifier
+        if k == 0: return "(only %s %s)" % (inner, " ".join(ids))
+        if k == 1: return "(except %s %s)" % (inner, " ".join(ids))
+        if k == 2: return "(prefix %s %s)" % (inner, rng.choice(["p-", "car", ""]))
+        pairs = ["(%s %s)" % (rng.choice(names), rng.choice(names + ["y", "z"])) for _ in range(rng.randrange(0, 3))]
+        if pairs and rng.random() < 0.3:
+            pairs.append(rng.choice(pairs))
+        return "(rename %s %s)" % (inner, " ".join(pairs))
+    return "(import %s)" % " ".join(iset(3) for _ in range(rng.randrange(1, 3)))
+
+
 def mutate(rng, text):
     toks = text.replace("(", " ( ").replace(")", " ) ").split()
     for _ in range(rng.randrange(1, 4)):
@@ -207,6 +228,29 @@ def run(rep, tier, rng):
                                    "implementation": a[k], "model": b[k]}, no_input=True)
         if len(rep.cov["samples"]) < 4:
             rep.sample({"text": forms[2 * (ci % 7)], "implementation": a[2 * (ci % 7)]})
+    # import declarations, each on a FRESH interpreter (imports must come first): import sets of every kind, nested, with
+    # repeated identifiers, identifiers the library does not export, renames onto existing names, unknown libraries
+    icases, itexts = [], []
+    for i in range(400 if tier == "quick" else 8000):
+        t = import_soup(rng)
+        itexts.append(t)
+        icases.append(("i%d" % i, "prog", ["nostd", t, "42"]))
+    ii, im = C.run_hx(icases), C.run_driver(icases)
+    for (cid, _, f), t in zip(icases, itexts):
+        rep.count()
+        rep.nontrivial(("import", t))
+        a, b = ii.get(cid, ["?", "?"]), im.get(cid, ["?", "?"])
+        ca = classify(a[0])
+        dist[("import", ca.split(" ")[0] if ca.startswith("E") else ca)] = dist.get(("import", ca.split(" ")[0] if ca.startswith("E") else ca), 0) + 1
+        if len(a) != 2 or ca == "P" or a[0].startswith("P"):
+            rep.violation({"what": "the interpreter panicked (or its process died) on an import declaration", "text": t, "implementation": a})
+        elif a[1] != "V i:42":
+            rep.violation({"what": "after this import declaration the same interpreter no longer evaluates the sanity form",
+                           "text": t, "result": a[0], "sanity": a[1]})
+        elif [classify(x) for x in a] != [classify(x) for x in b] and bad_corr < 8:
+            bad_corr += 1
+            rep.violation({"broken": "correspondence (classification) model <-> implementation", "text": t, "class": "import",
+                           "implementation": a, "model": b}, no_input=True)
     # program files: not UTF-8, directory, missing
     os.makedirs(os.path.join(C.BUILD, "tmp"), exist_ok=True)
     fcases = []
